@@ -63,6 +63,24 @@ theorem hy_ylow_join (d dbelow : List ℝ) (hd : d.Pairwise (· < ·)) (hb : dbe
     pairwise_lt_getElem hb (by omega) (by omega)
   refine ⟨by ring, by linarith, by linarith, by linarith⟩
 
+/-- … and it is the interior-face formula continued across the join: on the chain written as one sequence
+    (`joinChain (chainPD …)`, i.e. poloidal_distance along the two regions) the interior `hy.ylow` entry at the join face is
+    exactly `(d[1] - d[0]) + (dbelow[-1] - dbelow[-2])`, the distance between the cell centres on either side -/
+theorem hy_ylow_join_is_chain_centre_gap (off : ℝ) (dbelow d : List ℝ) (s m : ℕ) (hb : dbelow.length = 2 * m + 3)
+    (hd : 2 ≤ d.length) :
+    (hyYlowInner (joinChain (chainPD off [(dbelow, s), (d, 0)])))[m]? =
+      some ((d[1] - d[0]) + (dbelow[2 * m + 2] - dbelow[2 * m + 1])) := by
+  have hne : dbelow ≠ [] := List.ne_nil_of_length_pos (by omega)
+  rw [joinChain_two, hyYlowInner_append _ _ m (by rw [regionVals_length, hb])
+    (by rw [List.length_tail, regionVals_length]; omega)]
+  have hlast : dbelow.getLast hne = dbelow[2 * m + 2] := by
+    have e : 2 * m + 3 - 1 = 2 * m + 2 := by omega
+    rw [List.getLast_eq_getElem]; simp only [hb, e]
+  rw [regionSpan_eq_getD hne, hlast]
+  simp only [regionVals, List.getElem_tail, List.getElem_map, List.getD_eq_getElem d 0 (by omega : 0 < d.length)]
+  congr 1
+  ring
+
 /-! ## 5. `calcPoloidalDistance` along a chain of regions -/
 
 /-- 5a: the chain starts from 0 at the startInd point of its first region -/
@@ -93,14 +111,8 @@ theorem chain_within_region (off : ℝ) (regs : List (List ℝ × ℕ)) (k : ℕ
 theorem chain_join_continuous (off : ℝ) (regs : List (List ℝ × ℕ)) (k : ℕ) (hk : k + 1 < regs.length)
     (hne : regs[k].1 ≠ []) (hne' : regs[k + 1].1 ≠ []) (hs : regs[k + 1].2 = 0) :
     ∃ u v a, (chainPD off regs)[k]? = some u ∧ (chainPD off regs)[k + 1]? = some v ∧
-      u.getLast? = some a ∧ v.head? = some a := by
-  refine ⟨_, _, chainOffset off regs (k + 1), chainPD_getElem? off regs k (by omega),
-    chainPD_getElem? off regs (k + 1) hk, ?_, ?_⟩
-  · rw [regionVals_getLast? hne, chainOffset_step off regs k (by omega)]
-  · rw [hs]
-    obtain ⟨d0, dt, hd⟩ := List.exists_cons_of_ne_nil hne'
-    rw [hd, regionVals_zero_start]
-    rfl
+      u.getLast? = some a ∧ v.head? = some a :=
+  chainPD_join_continuous off regs k hk hne hne' hs
 
 /-- 5c: … and therefore the whole chain, written as one sequence with the duplicated join points dropped, is strictly
     increasing when every region's distances are -/
@@ -118,6 +130,23 @@ theorem chain_total (regs : List (List ℝ × ℕ)) (hne : regs ≠ []) (h : ∀
   refine ⟨v, hv, ?_⟩
   rw [hv', zero_add]
   rfl
+
+/-- 5d': (last value of the chain) − (first value of the chain) = Σ_k (d_k[last] - d_k[first]) when the later regions start
+    at their first point: the length of the whole chain, independent of the initial offset and of the first region's
+    startInd -/
+theorem chain_end_minus_start (off : ℝ) (d0 : List ℝ) (s0 : ℕ) (rest : List (List ℝ × ℕ)) (h0 : d0 ≠ [])
+    (hrest : ∀ p ∈ rest, p.1 ≠ [] ∧ p.2 = 0) :
+    ∃ u v a b, (chainPD off ((d0, s0) :: rest)).head? = some u ∧ (chainPD off ((d0, s0) :: rest)).getLast? = some v ∧
+      u.head? = some a ∧ v.getLast? = some b ∧
+      b - a = (((d0, s0) :: rest).map fun p => p.1.getLastD 0 - p.1.getD 0 0).sum := by
+  obtain ⟨u, v, a, b, hu, hv, ha, hb, hab⟩ := chainPD_end_minus_start off d0 s0 rest h0 (fun p hp => (hrest p hp).1)
+  refine ⟨u, v, a, b, hu, hv, ha, hb, ?_⟩
+  rw [hab, List.map_cons, List.sum_cons]
+  congr 1
+  congr 1
+  apply List.map_congr_left
+  intro p hp
+  simp only [regionSpan, (hrest p hp).2]
 
 /-- 5e: the variant that subtracts `d[startInd]` for the FIRST region only (`chainPDfirstOnly`, the code before the fix)
     jumps at a join by exactly the first distance `b` of the next region: continuity needs the per-region subtraction
@@ -169,6 +198,13 @@ theorem chord_error_circle (r θ : ℝ) (N : ℕ) (hr : 0 < r) (hθ : 0 < θ) (h
   rw [e, hθx]
   nlinarith [mul_pos hN' hr]
 
+/-- what `FineContour.calcDistance` adds per segment on a circle: the straight-line distance between two points of the circle
+    of radius r whose angles differ by φ ∈ [0, 2π] is the chord 2·r·sin(φ/2) used above (φ = θ/N) -/
+theorem chord_length_circle (r a φ : ℝ) (hr : 0 ≤ r) (h0 : 0 ≤ φ) (h1 : φ ≤ 2 * Real.pi) :
+    Real.sqrt ((r * Real.cos (a + φ) - r * Real.cos a) ^ 2 + (r * Real.sin (a + φ) - r * Real.sin a) ^ 2)
+      = 2 * r * Real.sin (φ / 2) :=
+  chord_length r a φ hr h0 h1
+
 /-- the same with the model's name for the polygon length -/
 theorem chordSum_error (r θ : ℝ) (N : ℕ) (hr : 0 < r) (hθ : 0 < θ) (hN : 1 ≤ N) :
     0 < r * θ - chordSum r θ N ∧ r * θ - chordSum r θ N < r * θ ^ 3 / (24 * N ^ 2) :=
@@ -197,5 +233,17 @@ example : ∃ (d : List ℝ) (rest : List (List ℝ × ℕ)), d ≠ [] ∧ d.Pai
 /-- `chord_error_circle`: a half circle of radius 1 with 10 chords -/
 example : ∃ (r θ : ℝ) (N : ℕ), 0 < r ∧ 0 < θ ∧ θ ≤ Real.pi ∧ 1 ≤ N :=
   ⟨1, Real.pi, 10, by norm_num, Real.pi_pos, le_refl _, by norm_num⟩
+
+/-- `hy_ylow_join_is_chain_centre_gap`: a lower region of one cell (3 points) and an upper region -/
+example : ∃ (dbelow d : List ℝ) (m : ℕ), dbelow.length = 2 * m + 3 ∧ 2 ≤ d.length :=
+  ⟨[0, 1, 2], [1, 2, 3], 0, rfl, by simp⟩
+
+/-- `chain_end_minus_start` -/
+example : ∃ (d0 : List ℝ) (rest : List (List ℝ × ℕ)), d0 ≠ [] ∧ rest ≠ [] ∧ ∀ p ∈ rest, p.1 ≠ [] ∧ p.2 = 0 :=
+  ⟨[0, 1, 2], [([1, 2, 3], 0)], by simp, by simp, by simp⟩
+
+/-- `chord_length_circle`: a quarter turn on the unit circle -/
+example : ∃ r φ : ℝ, 0 ≤ r ∧ 0 ≤ φ ∧ φ ≤ 2 * Real.pi :=
+  ⟨1, Real.pi / 2, by norm_num, by positivity, by linarith [Real.pi_pos]⟩
 
 end HypnoModel.Props.C05
